@@ -25,6 +25,7 @@ var Rules = []string{
 	"functions with several results (Go; testsuite/lang/named_return*.mpcl)",
 	"package-level constants and variables, shadowed by locals (Go; testsuite/lang/pkg.mpcl, var.mpcl)",
 	"an untyped integer literal takes the type of its context (assignment target, other operand, parameter, result) (Go constants; README 'constants are untyped')",
+	"composite literals of structs and arrays with constant elements are values like any other (Go; testsuite/lang/composite_lit.mpcl)",
 	"unary minus is 0 - x in the operand's type; x op= e is x = x op e; x++ / x-- add / subtract one (Go)",
 }
 
@@ -252,6 +253,29 @@ type BigConst struct {
 
 func (x BigConst) Eval(e *Env) Value { return Scalar(x.T, new(big.Int).Set(x.V)) }
 func (x BigConst) Src() string       { return fmt.Sprintf("%s(0x%x)", x.T.Src(), x.V) }
+
+// CompLit is a composite literal of a struct or array type with constant scalar elements: P{1, 2}, [3]uint8{1, 2, 3}.
+type CompLit struct {
+	T    Type
+	Vals []int64
+}
+
+func (x CompLit) Eval(e *Env) Value {
+	v := Zero(x.T)
+	for i := range v.Elems {
+		if i < len(x.Vals) {
+			v.Elems[i] = Scalar(v.Elems[i].T, big.NewInt(x.Vals[i]))
+		}
+	}
+	return v
+}
+func (x CompLit) Src() string {
+	var parts []string
+	for _, v := range x.Vals {
+		parts = append(parts, fmt.Sprint(v))
+	}
+	return x.T.Src() + "{" + strings.Join(parts, ", ") + "}"
+}
 
 // UConst is an untyped non-negative integer literal written where a value of type T is expected (an assignment
 // to, or an operation with, a T): the literal takes that type (language: untyped constants convert to the
